@@ -429,6 +429,32 @@ fn case_strategy() -> impl Strategy<Value = Case> {
         })
 }
 
+/// chunks of 1 MiB and more (stored sizes above the writers' internal buffers), both writers
+fn big_case_strategy() -> impl Strategy<Value = Case> {
+    (
+        prop_oneof![
+            (1_050_000usize..=2_300_000).prop_map(|n| ChunkerCfg { algo: Algo::FixedSize, bits: 0, min: 0, max: n, window: 0 }),
+            Just(ChunkerCfg { algo: Algo::RollSum, bits: 15, min: 16 * 1024, max: 16 * 1024 * 1024, window: 64 }),
+            Just(ChunkerCfg { algo: Algo::BuzHash, bits: 12, min: 4096, max: 2 * 1024 * 1024, window: 16 }),
+        ],
+        any::<u32>(),
+        prop_oneof![Just(Comp::None), Just(Comp::Brotli(1)), Just(Comp::Zstd(1))],
+        prop_oneof![Just(Writer::Lib), Just(Writer::Cli), Just(Writer::CliStdin)],
+        prop_oneof![Just(1usize), Just(3), Just(8)],
+        0u8..3,
+    )
+        .prop_map(|(chunker, seed, comp, writer, buffers, shape)| {
+            let source = match shape {
+                // small chunks first, then a long constant run (one huge chunk), then small ones again
+                0 => vec![Seg::Text { n: 60_000, seed }, Seg::Const { b: 0xee, n: 2_400_000 }, Seg::Random { n: 80_000, seed }],
+                // compressible then incompressible
+                1 => vec![Seg::Const { b: 0, n: 1_300_000 }, Seg::Random { n: 2_500_000, seed }],
+                _ => vec![Seg::Random { n: 200_000, seed }, Seg::Const { b: 7, n: 1_200_000 }, Seg::CopyOf { at: 100, len: 900_000 }],
+            };
+            Case { source, cfg: ArchCfg { chunker, hash_len: 64, comp, buffers }, writer, metadata: vec![], reads: ReadScript { sizes: vec![1 << 20, 50_000], pending_every: 0 }, rt: RtShape { multi: true, workers: 2, blocking: 4 }, delays: vec![], overwrite: None }
+        })
+}
+
 impl Prop for C11 {
     fn id(&self) -> &'static str {
         "C11"
@@ -446,6 +472,11 @@ impl Prop for C11 {
     fn run_worker(&self, cx: &mut WorkerCtx) {
         let t = cx.tier;
         cx.run_prop("conf", t.pick(6000, 120_000), case_strategy(), run_case);
+        cx.run_prop("big", t.pick(32, 600), big_case_strategy(), |c, rec| {
+            run_case(c, rec)?;
+            rec.class("chunk_of_1MiB_or_more");
+            Ok(())
+        });
         let dir = worker_dir("C11");
         let _ = std::fs::remove_dir_all(dir);
     }
